@@ -511,3 +511,56 @@ def c03(r):
         (lonmut, "C03.longitude.own-ephemeris"), (indmut, "C03.longitude.independent"), (order, "C03.table.canonical-order"),
         (share, "C03.table.shared-with-next-year"), (name, "C03.ofDay.name"),
         (lambda e: bump(["tab", 5, 6])(e), "C03.table.instant")]}, per_kind=1)
+
+
+@plan("C05", "exploration")
+def c05(r):
+    thorough = r.tier == "thorough"
+    r.rule = ("TLC model-checks MC_GanZhi (the closed forms of GanZhi.tla against the classical rules for every combination: "
+              "continuous month cycle = five tigers for 180 pillar years x 12 months, five rats for 60 days x 13 slots, parity, "
+              "unit steps). One frame per civil year (%s): the term table and ~250 moments - each of the 12 Jie instants and +-1 s, "
+              "00:00:00 / 23:00:00 / 23:59:59 of each Jie day and its neighbours, the 23:00 and midnight boundaries on 6 seeded days, "
+              "every two-hour slot boundary +-1 s on 2 seeded days, lunar New Year's Eve/Day, Dec 26..Jan 3, 10 random - with the 18 "
+              "index getters, 19 name getters, EightChar under SetSect(1) and (2), the LunarTime object. TLC recomputes every pillar from "
+              "(JDN, second of day, lunar year, Jie instants). Distinct non-trivial case = distinct moment." %
+              ("every civil year 1..9998" if thorough else "150 seeded + 22 boundary years"))
+    r.assumptions += ["the New-Year-based year pillar takes the lunar year number from the library's conversion (decided by C01/C06)",
+                      "the hour stem follows the early-rat day stem (the only reading under which 23:00 and 00:00 of one slot share a pillar)"]
+    r.build()
+    r.mc("MC_GanZhi", "MC_GanZhi")
+    ch = r.drive("c05years", args={"years": 150}, maxlines=12)
+    r.validate("Trace_Lunar", ch)
+    r.sample_from(ch[:1])
+    r.cov["samples"] = [s[:600] for s in r.cov["samples"]]
+    nq = 0
+    for c in ch:
+        for line in open(c, encoding="utf-8"):
+            nq += len(json.loads(line).get("q", []))
+    r.cov["moments"] = nq
+    r.cov["distinct_nontrivial"] = nq
+    def idxmut(i, sod_pred=None):
+        def f(e):
+            for q in e.get("q", []):
+                if q["p"] == 0 and (sod_pred is None or sod_pred(q["at"])):
+                    q["idx"][i] = (q["idx"][i] + 2) % 10
+                    return True
+            return False
+        return f
+    def strmut(i):
+        def f(e):
+            for q in e.get("q", []):
+                if q["p"] == 0:
+                    q["str"][i] = "甲子" if q["str"][i] != "甲子" else "乙丑"
+                    return True
+            return False
+        return f
+    def ecmut(e):
+        for q in e.get("q", []):
+            if q["p"] == 0 and q["at"][3] == 23:
+                q["ec1"][2] = q["ec2"][2]
+                return True
+        return False
+    r.negctl("Trace_Lunar", ch[0], {"C05Year": [
+        (idxmut(0), "C05.year.newYear"), (idxmut(2), "C05.year.lichunDay"), (idxmut(4), "C05.year.lichunInstant"),
+        (idxmut(6), "C05.month.jieDay"), (idxmut(8), "C05.month.jieInstant"), (idxmut(10), "C05.day"),
+        (idxmut(12), "C05.day.earlyRat"), (idxmut(16), "C05.hour"), (strmut(4), "C05.names"), (ecmut, "C05.eightChar.sect1")]}, per_kind=1)
